@@ -19,13 +19,19 @@ batch/front_end/front_end.py and hailctl/config/config_variables.py; nothing of 
   R2  grammar.  L(regex, fullmatch) == the documented grammar  [+]? (D+ | D* '.' D+) unit? ['B']  as automata; capture group 1 is
       exactly the unsigned decimal number, capture group 2 exactly the unit set; `conv_factor` has exactly those units as keys
       with the values 1000^n / 1024^n (constant-folded from the literal table).
-  R4  formula.  The same evaluator with float() read as exact rational arithmetic: floor(value*1000) mCPU (value/1000 with the
-      m suffix), ceil(value*factor) bytes - decides units/direction/truncation independently of rounding.
-  R3  exactness.  Our own evaluator interprets each parse function body (float / int / math.ceil / Decimal / Fraction arithmetic over
-      the extracted syntax tree) on a family of accepted spellings and compares with exact rational arithmetic: floor(value*1000)
-      millicores, ceil(value*factor) bytes.  Every return statement is an instance; a mismatch is reported with the concrete
-      strings (binary float() or a rounding Decimal context make particular decimals come out wrong).
-Does not decide: exactness outside the evaluated family when the arithmetic is not float-free.
+  R4  formula.  Each parse function is executed ABSTRACTLY (module-level helpers inlined at statement level or followed at call level;
+      arguments - regex, factor table, rounding callable - substituted for the helper's parameters), once per unit case: the finite set
+      of strings capture group 2 can hold plus "no unit".  The number is one symbol (`value`, the exact rational the unsigned decimal of
+      group 1 denotes); every value-returning statement yields a normal form k*mode(c*value + d) + j (mode: floor / ceil / nearest, from
+      int / math.floor / math.ceil / math.trunc / round / //), which must be exactly floor(1000*value) mCPU (floor(value) with the m suffix)
+      or ceil(1000^n | 1024^n * value) bytes.  value ranges over a dense unbounded set, so different normal forms ARE different functions:
+      a mismatch is a wrong result for some accepted string (one is printed as illustration).  Raising on a unit case, returning None /
+      a constant / an unrounded value are reported too.
+  R3  exactness.  On the same execution a value is tainted once its machine value can differ from c*value + d: float() of the text, a
+      float operand, Decimal arithmetic (rounded to the context precision), int ** negative int, true division of integers.  A tainted
+      value reaching the rounding / the return is reported (the grammar admits any number of digits, so a lossy step loses some input).
+Tests that depend on the value of the number, loops, digit-string arithmetic whose result is only known as an interval: declined.
+Does not decide: functions whose arithmetic falls outside the abstract domain (declined, exit 2).
 """
 from __future__ import annotations
 
@@ -36,6 +42,7 @@ import math
 import re
 from typing import Any, Dict, List, Optional, Tuple
 
+from engines import inline
 from engines import pyfacts as pf
 from engines import relang as R
 from engines import strpred as sp
@@ -43,16 +50,16 @@ from engines.common import AnalysisError, Ctx
 
 META = dict(
     category='other',
-    text='R1/R2 are decided exactly (automata equivalence over all Unicode strings, finite unit tables by constant folding); R3 is a '
-         'concrete-evaluation lint: the parse arithmetic is interpreted by our own evaluator on several thousand accepted spellings per function '
-         'and compared with exact rational arithmetic, plus a float-taint explanation.  R3 is not exhaustive over all decimals '
-         '(unless the arithmetic is float-free), hence level other.',
-    note='Trusted: CPython ast/re._parser; IEEE-754 double arithmetic of the running interpreter as the model of Python float; '
-         'fractions/decimal for the exact side; engines/relang.py, engines/strpred.py; the validator semantics are read from '
+    text='R1/R2 are decided exactly (automata equivalence over all Unicode strings, finite unit tables by constant folding); R4 compares, per unit case '
+         '(finite, exhaustive), the normal form of the value each return statement yields with the normal form the statement prescribes - the number is a symbol, '
+         'no sample inputs; R3 is a taint rule over the same abstract execution (float / context-rounded Decimal steps). Shapes outside the abstract domain are '
+         'declined, hence level other.',
+    note='Trusted: CPython ast/re._parser (group numbering / names of the extracted pattern); engines/relang.py, engines/strpred.py, engines/inline.py; Fraction arithmetic and '
+         'Fraction(text) / Decimal(text) construction are exact, float() and Decimal arithmetic are not; the validator semantics are read from '
          'hailtop/utils/validate/validate.py (symbolic construction + translation of the specialised validate method), with the '
-         'combinators MultipleValidator / NullableValidator recognised by shape. Group extraction for the evaluated candidates uses the '
-         'platform `re` on the extracted pattern text.',
-    technique='static analysis: regex-to-DFA equivalence, constant folding, abstract/concrete interpretation of extracted arithmetic',
+         'combinators MultipleValidator / NullableValidator recognised by shape.',
+    technique='static analysis: regex-to-DFA equivalence, constant folding, abstract execution over symbolic values with a case split over the finite unit set, '
+              'normal-form comparison, taint',
     design_ref='DESIGN.md §3 C25',
 )
 
@@ -97,6 +104,11 @@ class ParseFn:
     def __init__(self, ctx: Ctx, m: pf.Module, resource: str):
         self.resource = resource
         self.name = RESOURCES[resource][0]
+        ctx.need(m.has_func(self.name), f'{F_PARSE}: {self.name} vanished')
+        # the function is analysed with its module-level helpers inlined (one shared `_parse(regex, text, factors, rounding)` helper
+        # is the obvious refactoring of three near-identical bodies): arguments are substituted for the helper's parameters
+        m, il = inline.inline_functions(m, self.name)
+        self.inlined = [h for h, _line in il.inlined]
         self.m = m
         self.fn = m.func(self.name)
         params = [a.arg for a in self.fn.args.posonlyargs + self.fn.args.args]
@@ -170,8 +182,8 @@ def _check_none_iff_no_match(ctx: Ctx, p: ParseFn) -> None:
     problems = []
     both = {n.id for n in yes_rets} & {n.id for n in no_rets}
     for n in yes_rets:
-        if n.id not in both and (is_none(n) or not isinstance(n.ast.value, ast.Call)):  # type: ignore[union-attr]
-            problems.append(f'on a successful match `{n.text()}` does not return a computed value')
+        if n.id not in both and is_none(n):
+            problems.append(f'on a successful match `{n.text()}` returns None, the answer for "not a size"')
     if yes_falls or any(n.id in both for n in yes_rets):
         problems.append('a successful match can fall through to the no-match result')
     for n in no_rets:
@@ -730,320 +742,903 @@ def _check_validation_applied(ctx: Ctx, vlib: 'ValidatorLib', mv: pf.Module, ser
 
 
 # --------------------------------------------------------------------------------------
-# R3: evaluator for the parse arithmetic
+# R3 / R4: abstract execution of the parse arithmetic
 # --------------------------------------------------------------------------------------
+#
+# Nothing is evaluated on sample inputs.  The function body (helpers inlined / called symbolically) is executed ONCE PER UNIT CASE
+# (the finite set of strings capture group 2 can hold, plus "no unit") over symbolic values:
+#
+#   x            the exact rational value of the number text (capture group 1: an unsigned decimal with any number of digits, R2)
+#   Num          c*x + d held as a Fraction / Decimal / float  (+ a `lossy` note once the machine value can differ from c*x + d:
+#                float() of the text, any float operand, Decimal arithmetic, which rounds to the context precision)
+#   Rnd          k * mode(c*x + d) + j  with mode in floor / ceil / nearest  (int(), math.floor/ceil/trunc, round(), //)
+#   IntU/FloatU  an integer known only by interval (len() of a piece of the text, int() of digits) / a binary float of unknown value
+#   Txt          a piece of the matched text with a length interval (partition / slices of the number)
+#   K            program constants and the enum member of the case (unit string, None), folded exactly
+#
+# A test that depends on x or on an unknown integer is not decided: the analysis declines.  What each `return` yields is compared,
+# as a normal form, with the statement: floor(1000*x) mCPU (floor(x) with the m suffix), ceil(factor*x) bytes.  Because x ranges over a
+# dense, unbounded set of decimals, two normal forms k*mode(c*x+d)+j denote the same function iff they are identical, so a
+# differing normal form IS a wrong result for some accepted string; concrete strings only illustrate the report.
 
 
-class _EvalRaise(Exception):
-    """The interpreted code raises on this input."""
+class _Raises(Exception):
+    """The analysed code raises on this case."""
 
 
-_RETURN = object()
+class K:
+    """A program constant or the enum member of the case, folded exactly (None, bool, int, str, Fraction, float literal)."""
+    __slots__ = ('v', 'dec')
+
+    def __init__(self, v: Any, dec: bool = False):
+        self.v = v
+        self.dec = dec  # a decimal.Decimal constant (held as its exact Fraction)
+
+    def __repr__(self) -> str:
+        return f'K({self.v!r})'
 
 
-class Evaluator:
-    """Our own interpreter for the small Python subset the parse functions are written in, compiled once into closures over an
-    environment dict.  Unknown syntax -> AnalysisError at compile time.  With ideal=True `float(x)` is read as the exact rational
-    number (formula check, independent of rounding); otherwise it is the interpreter's binary64 float."""
+class Txt:
+    __slots__ = ('kind', 'lo', 'hi', 'src')
 
-    def __init__(self, p: ParseFn, ideal: bool = False):
-        self.p = p
-        self.ideal = ideal
-        self.m = p.m
+    def __init__(self, kind: str, lo: int, hi: Optional[int], src: str):
+        self.kind, self.lo, self.hi, self.src = kind, lo, hi, src  # kind: input | number | digits
+
+
+class MatchV:
+    pass
+
+
+class Num:
+    __slots__ = ('c', 'd', 'rep', 'lossy')
+
+    def __init__(self, c, d, rep: str, lossy: Optional[str] = None):
+        self.c, self.d, self.rep, self.lossy = fractions.Fraction(c), fractions.Fraction(d), rep, lossy
+
+
+class Rnd:
+    __slots__ = ('mode', 'c', 'd', 'k', 'j', 'lossy')
+
+    def __init__(self, mode: str, c, d, k: int = 1, j: int = 0, lossy: Optional[str] = None):
+        self.mode, self.c, self.d, self.k, self.j, self.lossy = mode, fractions.Fraction(c), fractions.Fraction(d), k, j, lossy
+        if self.k == 1 and self.j:  # mode(y) + j == mode(y + j) for an integer j
+            self.d, self.j = self.d + self.j, 0
+
+
+class IntU:
+    __slots__ = ('lo', 'hi', 'what')
+
+    def __init__(self, lo: Optional[int], hi: Optional[int], what: str):
+        self.lo, self.hi, self.what = lo, hi, what
+
+
+class FloatU:
+    __slots__ = ('why',)
+
+    def __init__(self, why: str):
+        self.why = why
+
+
+class Fn:
+    __slots__ = ('name',)
+
+    def __init__(self, name: str):
+        self.name = name
+
+
+class Tup:
+    __slots__ = ('items',)
+
+    def __init__(self, items: list):
+        self.items = items
+
+
+class DictV:
+    __slots__ = ('items',)
+
+    def __init__(self, items: dict):
+        self.items = items
+
+
+class Alt:
+    """One of several values, depending on something the analysis does not track (emptiness of a piece of the text)."""
+    __slots__ = ('alts',)
+
+    def __init__(self, alts: list):
+        flat: list = []
+        for a in alts:
+            flat += a.alts if isinstance(a, Alt) else [a]
+        self.alts = flat
+
+
+_FLOAT_MSG = 'the decimal text goes through binary float(), which keeps about 17 significant digits'
+_DEC_MSG = 'Decimal arithmetic rounds every result to the context precision (28 significant digits by default)'
+_BUILTINS = ('int', 'float', 'round', 'len', 'str', 'bool', 'abs', 'min', 'max')
+_KNOWN_FUNCS = ('math.ceil', 'math.floor', 'math.trunc', 'fractions.Fraction', 'decimal.Decimal')
+
+
+def _is_num_k(v: Any) -> bool:
+    return isinstance(v, K) and isinstance(v.v, (int, fractions.Fraction, float)) and not isinstance(v.v, bool)
+
+
+def _hull(vals: list) -> Any:
+    """Join of alternatives: integers known by value / interval collapse to one interval; otherwise they stay alternatives."""
+    if len(vals) == 1:
+        return vals[0]
+    if all(isinstance(v, IntU) or (isinstance(v, K) and isinstance(v.v, int) and not isinstance(v.v, bool)) for v in vals):
+        los = [v.lo if isinstance(v, IntU) else v.v for v in vals]
+        his = [v.hi if isinstance(v, IntU) else v.v for v in vals]
+        return IntU(None if any(x is None for x in los) else min(los), None if any(x is None for x in his) else max(his),
+                    ' | '.join(sorted({v.what if isinstance(v, IntU) else repr(v.v) for v in vals})))
+    fl = [v for v in vals if isinstance(v, FloatU)]
+    if fl and all(isinstance(v, (FloatU, IntU, Rnd)) or _is_num_k(v) for v in vals):
+        return fl[0]
+    return Alt(vals)
+
+
+class SymExec:
+    """Abstract execution of one parse function for one unit case."""
+
+    def __init__(self, p: ParseFn, unit: Optional[str], matched: bool = True):
+        self.p, self.m, self.unit, self.matched = p, p.m, unit, matched
         self.imports = sp.imports_of(p.m)
-        self.compiled = re.compile(p.rd.pattern, p.rd.flags)  # platform regex on the extracted pattern text (group extraction)
         self.consts: Dict[str, Any] = {}
-        self.float_calls = [c for c in pf.calls_in(p.fn) if pf.dotted(c.func) == 'float']
-        self.body = self.block(list(p.fn.body))
+        self.depth = 0
+        try:
+            self.groupindex = dict(re.compile(p.rd.pattern, p.rd.flags).groupindex)  # names of the groups of the extracted pattern
+        except re.error as e:  # pragma: no cover - R2 parses the same pattern first
+            raise AnalysisError(f'{p.name}: pattern does not compile: {e}')
 
-    def run(self, text: str) -> Tuple[Any, Optional[ast.Return]]:
-        env: Dict[str, Any] = {self.p.param: text}
-        r = self.body(env)
+    def fail(self, e: ast.AST, what: str = 'expression') -> AnalysisError:
+        return AnalysisError(f'{self.p.name}: {what} not supported by the arithmetic analysis: `{pf.nsrc(e)[:80]}` (line {getattr(e, "lineno", 0)})')
+
+    # ---- running
+    def run(self) -> Tuple[Any, Optional[ast.Return]]:
+        r = self.block(self.p.fn.body, {self.p.param: Txt('input', 0, None, self.p.param)}, self.p.fn)
         if r is None:
-            return None, None
-        return r[1], r[2]
+            return K(None), None
+        return r
 
-    # -- statements: closure(env) -> None (fell through) | (_RETURN, value, stmt)
-    def block(self, stmts: List[ast.stmt]):
-        parts = [self.stmt(st) for st in stmts if not (isinstance(st, ast.Expr) and isinstance(st.value, ast.Constant)) and not isinstance(st, ast.Pass)]
+    def block(self, stmts: List[ast.stmt], env: Dict[str, Any], fn: pf.FuncDef) -> Optional[Tuple[Any, ast.Return]]:
+        for st in stmts:
+            r = self.stmt(st, env, fn)
+            if r is not None:
+                return r
+        return None
 
-        def run_block(env):
-            for f in parts:
-                r = f(env)
-                if r is not None:
-                    return r
+    def assign(self, tgt: ast.AST, val: Any, env: Dict[str, Any], st: ast.AST) -> None:
+        if isinstance(tgt, ast.Name):
+            env[tgt.id] = val
+            return
+        if isinstance(tgt, (ast.Tuple, ast.List)) and isinstance(val, Tup) and len(tgt.elts) == len(val.items) and not any(isinstance(t, ast.Starred) for t in tgt.elts):
+            for t, v in zip(tgt.elts, val.items):
+                self.assign(t, v, env, st)
+            return
+        raise self.fail(st, 'assignment')
+
+    def stmt(self, st: ast.stmt, env: Dict[str, Any], fn: pf.FuncDef) -> Optional[Tuple[Any, ast.Return]]:
+        if isinstance(st, ast.Expr) and isinstance(st.value, ast.Constant) or isinstance(st, ast.Pass):
             return None
-        return run_block
-
-    def stmt(self, st: ast.stmt):
-        if isinstance(st, (ast.Assign, ast.AnnAssign)):
-            tgt = st.targets[0] if isinstance(st, ast.Assign) and len(st.targets) == 1 else getattr(st, 'target', None)
-            if isinstance(tgt, ast.Name) and st.value is not None:
-                name, val = tgt.id, self.expr(st.value)
-
-                def assign(env):
-                    env[name] = val(env)
-                return assign
+        if isinstance(st, ast.Assign):
+            v = self.expr(st.value, env, fn)
+            for t in st.targets:
+                self.assign(t, v, env, st)
+            return None
+        if isinstance(st, ast.AnnAssign):
+            if st.value is not None:
+                self.assign(st.target, self.expr(st.value, env, fn), env, st)
+            return None
         if isinstance(st, ast.AugAssign) and isinstance(st.target, ast.Name):
-            name, val, op = st.target.id, self.expr(st.value), self.binop(st.op)
-
-            def aug(env):
-                env[name] = op(env[name], val(env))
-            return aug
+            if st.target.id not in env:
+                raise _Raises(f'UnboundLocalError({st.target.id})')
+            env[st.target.id] = self.arith(st.op, env[st.target.id], self.expr(st.value, env, fn), st)
+            return None
         if isinstance(st, ast.If):
-            test, body, orelse = self.expr(st.test), self.block(list(st.body)), self.block(list(st.orelse))
-            return lambda env: body(env) if test(env) else orelse(env)
+            t = self.truth(self.expr(st.test, env, fn))
+            if t is None:
+                raise AnalysisError(f'{self.p.name}: the test `{pf.nsrc(st.test)[:70]}` (line {st.lineno}) depends on the value of the number or on a quantity the analysis does not track')
+            return self.block(st.body if t else st.orelse, env, fn)
+        if isinstance(st, ast.Assert):
+            t = self.truth(self.expr(st.test, env, fn))
+            if t is False:
+                raise _Raises('AssertionError')
+            return None
         if isinstance(st, ast.Return):
-            val = self.expr(st.value) if st.value is not None else (lambda env: None)
-            return lambda env: (_RETURN, val(env), st)
-        raise AnalysisError(f'{self.p.name}: statement not supported by the arithmetic evaluator: `{pf.nsrc(st)[:70]}` (line {st.lineno})')
+            return (self.expr(st.value, env, fn) if st.value is not None else K(None)), st
+        if isinstance(st, ast.Raise):
+            raise _Raises(pf.nsrc(st)[:60])
+        raise self.fail(st, 'statement')
 
-    @staticmethod
-    def binop(op: ast.operator):
-        def guarded(f):
-            def g(a, b):
-                try:
-                    return f(a, b)
-                except (OverflowError, ZeroDivisionError, TypeError, decimal.InvalidOperation) as ex:
-                    raise _EvalRaise(f'{type(ex).__name__}: {ex}') from ex
-            return g
+    # ---- truth
+    def truth(self, v: Any) -> Optional[bool]:
+        if isinstance(v, K):
+            return bool(v.v)
+        if isinstance(v, (MatchV, Fn)):
+            return True
+        if isinstance(v, Txt):
+            if v.lo >= 1:
+                return True
+            if v.hi == 0:
+                return False
+            return None
+        if isinstance(v, Tup):
+            return bool(v.items)
+        if isinstance(v, DictV):
+            return bool(v.items)
+        if isinstance(v, IntU):
+            if v.lo is not None and v.lo > 0 or v.hi is not None and v.hi < 0:
+                return True
+            if v.lo == 0 and v.hi == 0:
+                return False
+            return None
+        if isinstance(v, Alt):
+            ts = {self.truth(a) for a in v.alts}
+            return ts.pop() if len(ts) == 1 else None
+        return None
 
-        def power(a, b):
-            if not isinstance(b, int) or abs(b) > 64:
-                raise AnalysisError('evaluator: exponent out of range')
-            return a ** b
-        table = {ast.Add: lambda a, b: a + b, ast.Sub: lambda a, b: a - b, ast.Mult: lambda a, b: a * b, ast.Div: lambda a, b: a / b,
-                 ast.FloorDiv: lambda a, b: a // b, ast.Mod: lambda a, b: a % b, ast.Pow: power}
-        if type(op) not in table:
-            raise AnalysisError(f'evaluator: operator {type(op).__name__} not supported')
-        return guarded(table[type(op)])
+    # ---- names
+    def name(self, e: ast.Name, env: Dict[str, Any], fn: pf.FuncDef) -> Any:
+        if e.id in env:
+            return env[e.id]
+        if e.id in pf.assignments(fn):
+            raise _Raises(f'UnboundLocalError({e.id})')
+        origin = self.imports.get(e.id)
+        if origin is not None:
+            if origin in _KNOWN_FUNCS:
+                return Fn(origin)
+            raise self.fail(e, f'imported name ({origin})')
+        if self.m.has_func(e.id):
+            return Fn('user:' + e.id)
+        try:
+            ce = sp.module_const(self.m, e.id)
+        except AnalysisError:
+            if e.id in _BUILTINS:
+                return Fn(e.id)
+            raise
+        if e.id not in self.consts:
+            self.consts[e.id] = self.expr(ce, {}, self.p.fn)
+        return self.consts[e.id]
 
-    def module_value(self, name: str) -> Any:
-        if name not in self.consts:
-            self.consts[name] = self.expr(sp.module_const(self.m, name))({})
-        return self.consts[name]
-
-    # -- expressions: closure(env) -> value
-    def expr(self, e: ast.AST):
+    # ---- expressions
+    def expr(self, e: ast.AST, env: Dict[str, Any], fn: pf.FuncDef) -> Any:
         if isinstance(e, ast.Constant):
-            v = e.value
-            return lambda env: v
+            if e.value is None or isinstance(e.value, (bool, int, str, float)):
+                return K(e.value)
+            raise self.fail(e, 'literal')
         if isinstance(e, ast.Name):
-            name = e.id
-            locals_ = pf.assignments(self.p.fn)
-            if name in locals_:
-                def load(env):
-                    if name not in env:
-                        raise _EvalRaise(f'UnboundLocalError({name})')
-                    return env[name]
-                return load
-            return lambda env: self.module_value(name)
+            return self.name(e, env, fn)
+        if isinstance(e, ast.Attribute):
+            d = pf.dotted(e)
+            if d is not None:
+                head = d.split('.')[0]
+                if head not in env and head not in pf.assignments(fn):
+                    full = self.imports.get(head, head) + d[len(head):]
+                    if full in _KNOWN_FUNCS:
+                        return Fn(full)
+            raise self.fail(e, 'attribute')
         if isinstance(e, ast.BinOp):
-            op, a, b = self.binop(e.op), self.expr(e.left), self.expr(e.right)
-            return lambda env: op(a(env), b(env))
-        if isinstance(e, ast.UnaryOp) and isinstance(e.op, (ast.USub, ast.Not, ast.UAdd)):
-            a = self.expr(e.operand)
-            if isinstance(e.op, ast.USub):
-                return lambda env: -a(env)
+            return self.arith(e.op, self.expr(e.left, env, fn), self.expr(e.right, env, fn), e)
+        if isinstance(e, ast.UnaryOp):
+            v = self.expr(e.operand, env, fn)
             if isinstance(e.op, ast.Not):
-                return lambda env: not a(env)
-            return lambda env: +a(env)
-        if isinstance(e, ast.BoolOp):
-            parts = [self.expr(x) for x in e.values]
-            is_and = isinstance(e.op, ast.And)
-
-            def boolop(env):
-                v = None
-                for f in parts:
-                    v = f(env)
-                    if bool(v) != is_and:
-                        return v
+                t = self.truth(v)
+                if t is None:
+                    raise self.fail(e, 'test on an untracked quantity')
+                return K(not t)
+            if isinstance(e.op, ast.UAdd):
                 return v
-            return boolop
+            if isinstance(e.op, ast.USub):
+                return self.neg(v, e)
+            raise self.fail(e)
+        if isinstance(e, ast.BoolOp):
+            is_and = isinstance(e.op, ast.And)
+            alts: list = []
+            for i, x in enumerate(e.values):
+                v = self.expr(x, env, fn)
+                if i == len(e.values) - 1:
+                    alts.append(v)
+                    break
+                t = self.truth(v)
+                if t is None:
+                    # truthy and falsy refinements of a piece of text: the empty string / a non-empty one
+                    if isinstance(v, Txt) and v.lo == 0:
+                        if is_and:
+                            alts.append(K(''))
+                            v = Txt(v.kind, 1, v.hi, v.src)
+                        else:
+                            alts.append(Txt(v.kind, 1, v.hi, v.src))
+                        continue
+                    raise self.fail(e, 'and/or on an untracked quantity')
+                if t != is_and:
+                    alts.append(v)
+                    break
+            return _hull(alts)
         if isinstance(e, ast.IfExp):
-            t, a, b = self.expr(e.test), self.expr(e.body), self.expr(e.orelse)
-            return lambda env: a(env) if t(env) else b(env)
+            t = self.truth(self.expr(e.test, env, fn))
+            if t is None:
+                raise AnalysisError(f'{self.p.name}: the test of `{pf.nsrc(e)[:70]}` depends on the value of the number or on a quantity the analysis does not track')
+            return self.expr(e.body if t else e.orelse, env, fn)
         if isinstance(e, ast.Compare) and len(e.ops) == 1:
-            a, b = self.expr(e.left), self.expr(e.comparators[0])
-            table = {ast.Eq: lambda x, y: x == y, ast.NotEq: lambda x, y: x != y, ast.Lt: lambda x, y: x < y, ast.LtE: lambda x, y: x <= y,
-                     ast.Gt: lambda x, y: x > y, ast.GtE: lambda x, y: x >= y, ast.Is: lambda x, y: x is y, ast.IsNot: lambda x, y: x is not y,
-                     ast.In: lambda x, y: x in y, ast.NotIn: lambda x, y: x not in y}
-            if type(e.ops[0]) in table:
-                cmp = table[type(e.ops[0])]
-                return lambda env: cmp(a(env), b(env))
-        if isinstance(e, ast.Dict) and all(k is not None for k in e.keys):
-            ks = [self.expr(k) for k in e.keys]  # type: ignore[arg-type]
-            vs = [self.expr(v) for v in e.values]
-            return lambda env: {k(env): v(env) for k, v in zip(ks, vs)}
+            return self.compare(e.ops[0], self.expr(e.left, env, fn), self.expr(e.comparators[0], env, fn), e)
+        if isinstance(e, ast.Dict):
+            out: dict = {}
+            for k, v in zip(e.keys, e.values):
+                if k is None:
+                    dv = self.expr(v, env, fn)
+                    if not isinstance(dv, DictV):
+                        raise self.fail(e, 'dict spread')
+                    out.update(dv.items)
+                else:
+                    kv = self.expr(k, env, fn)
+                    if not isinstance(kv, K) or isinstance(kv.v, float):
+                        raise self.fail(e, 'dict key')
+                    out[kv.v] = self.expr(v, env, fn)
+            return DictV(out)
+        if isinstance(e, (ast.Tuple, ast.List)) and not any(isinstance(x, ast.Starred) for x in e.elts):
+            return Tup([self.expr(x, env, fn) for x in e.elts])
         if isinstance(e, ast.Subscript):
-            base, key = self.expr(e.value), self.expr(e.slice)
+            return self.subscript(self.expr(e.value, env, fn), e, env, fn)
+        if isinstance(e, ast.Call):
+            return self.call(e, env, fn)
+        raise self.fail(e)
 
-            def sub(env):
-                d, k = base(env), key(env)
-                if isinstance(d, str) and isinstance(k, int):
-                    if not -len(d) <= k < len(d):
-                        raise _EvalRaise(f'IndexError({k})')
-                    return d[k]
-                if not isinstance(d, dict):
-                    raise AnalysisError(f'{self.p.name}: subscript of a non-dict value in `{pf.nsrc(e)}`')
-                if k not in d:
-                    raise _EvalRaise(f'KeyError({k!r})')
-                return d[k]
-            return sub
-        if isinstance(e, ast.Call) and not e.keywords:
-            if e is self.p.call:
-                matcher, subj = getattr(self.compiled, self.p.mode), self.expr(self.p.subject)
-
-                def do_match(env):
-                    v = subj(env)
-                    if not isinstance(v, str):
-                        raise AnalysisError(f'{self.p.name}: the regex subject is not a string in the evaluator')
-                    return matcher(v)
-                return do_match
-            args = [self.expr(a) for a in e.args]
-            f = e.func
-            if isinstance(f, ast.Attribute) and f.attr == 'group' and isinstance(f.value, ast.Name):
-                holder = f.value.id
-
-                def group(env):
-                    mo = env.get(holder)
-                    if not isinstance(mo, re.Match):
-                        raise AnalysisError(f'{self.p.name}: `{pf.nsrc(e)}` is not applied to the match object')
-                    return mo.group(*[a(env) for a in args])
-                return group
-            if isinstance(f, ast.Attribute) and f.attr in ('strip', 'lstrip', 'rstrip', 'lower', 'upper', 'casefold', 'replace') and len(args) <= 2:
-                base, meth = self.expr(f.value), f.attr
-
-                def strmeth(env):
-                    b = base(env)
-                    if not isinstance(b, str):
-                        raise AnalysisError(f'{self.p.name}: `{pf.nsrc(e)}` is not applied to a string')
-                    try:
-                        return getattr(b, meth)(*[a(env) for a in args])
-                    except TypeError as ex:
-                        raise _EvalRaise(f'TypeError: {ex}') from ex
-                return strmeth
-            name = pf.dotted(f) or ''
-            head = name.split('.')[0]
-            if head in pf.assignments(self.p.fn):
-                raise AnalysisError(f'{self.p.name}: call through a local name `{name}`')
-            origin = self.imports.get(head, '')
-            full = (origin + name[len(head):]) if origin else name
-            ideal = self.ideal
-            impl = {
-                'float': (lambda x: fractions.Fraction(x)) if ideal else (lambda x: float(x)),
-                'int': lambda x: int(x), 'round': lambda x: round(x), 'str': lambda x: str(x),
-                'math.ceil': lambda x: math.ceil(x), 'math.floor': lambda x: math.floor(x), 'math.trunc': lambda x: math.trunc(x),
-                'decimal.Decimal': lambda x: decimal.Decimal(x), 'fractions.Fraction': lambda *x: fractions.Fraction(*x),
-            }.get(full)
-            if impl is not None and (len(args) == 1 or (full == 'fractions.Fraction' and len(args) == 2)):
-                def call(env):
-                    try:
-                        return impl(*[a(env) for a in args])
-                    except (OverflowError, ValueError, TypeError, decimal.InvalidOperation, ZeroDivisionError) as ex:
-                        raise _EvalRaise(f'{type(ex).__name__}: {ex}') from ex
-                return call
-        raise AnalysisError(f'{self.p.name}: expression not supported by the arithmetic evaluator: `{pf.nsrc(e)[:70]}`')
-
-
-def _candidates(resource: str, units: List[str]) -> List[Tuple[str, str, Optional[str]]]:
-    """(text, number, unit) - accepted spellings the arithmetic is evaluated on."""
-    nums: List[str] = []
-    if resource == 'cpu':
-        for i in range(0, 4):
-            nums.append(str(i))
-            for w in (1, 2, 3):
-                nums += [f'{i}.{d:0{w}d}' for d in range(10 ** w)]
-        nums += [str(k) for k in range(4, 2051)]
-    else:
-        for i in range(0, 3):
-            nums.append(str(i))
-            for w in (1, 2):
-                nums += [f'{i}.{d:0{w}d}' for d in range(10 ** w)]
-        nums += [f'0.{d:03d}' for d in range(1000)]
-        nums += [str(k) for k in range(3, 65)]
-    nums += ['.5', '.001', '007', '1.0005', '0.0015', '0.0001', '1.0000000000000000001', '9007199254740993', '0.30000000000000004',
-             '123456789.123456789']
-    out = []
-    for n in nums:
-        for u in [None] + units:
-            out.append((n + (u or ''), n, u))
-    # spellings with sign / byte suffix for a few
-    for n in ('1', '0.25', '1.001'):
-        out.append(('+' + n, n, None))
-        if resource != 'cpu':
-            out.append((n + 'B', n, None))
-            for u in units[:2]:
-                out.append((n + u + 'B', n, u))
-    return out
-
-
-def _exact(resource: str, number: str, unit: Optional[str]) -> int:
-    v = fractions.Fraction(number)
-    if resource == 'cpu':
-        if unit is not None:
-            v = v * SPEC_CPU_UNITS[unit]
-        return math.floor(v * 1000)
-    return math.ceil(v * (SPEC_UNITS[unit] if unit is not None else 1))
-
-
-def _check_exactness(ctx: Ctx, p: ParseFn, units: List[str]) -> int:
-    """R4: the formula (float read as exact real arithmetic) on a sub-family; R3: the real float arithmetic on the whole family."""
-    dfa = R.to_dfa(p.full, R.alphabet_for([p.full]))
-    rets = [n for n in pf.walk_shallow(p.fn) if isinstance(n, ast.Return) and n.value is not None
-            and not (isinstance(n.value, ast.Constant) and n.value.value is None)]
-    spec_units = SPEC_CPU_UNITS if p.resource == 'cpu' else SPEC_UNITS
-    cands = _candidates(p.resource, [u for u in units if u in spec_units])  # units outside the statement are R2's business
-    for text, _n, _u in cands:
-        if not dfa.accepts(text):
-            raise AnalysisError(f'{p.name}: candidate spelling {text!r} is not in the regex language (R2 would have to fail first)')
-    unit_word = 'mCPU' if p.resource == 'cpu' else 'bytes'
-    n_eval = 0
-    formula_ok: Dict[int, bool] = {}
-    for rule, ideal in (('R4', True), ('R3', False)):
-        evalr = Evaluator(p, ideal)
-        per_stmt: Dict[int, dict] = {id(r): {'stmt': r, 'n': 0, 'bad': []} for r in rets}
-        family = cands if not ideal else [c for i, c in enumerate(cands) if i % 5 == 0 or len(c[1]) > 6 or c[0][0] == '+' or c[0][-1] == 'B']
-        for text, number, unit in family:
-            want = _exact(p.resource, number, unit)
+    def compare(self, op: ast.cmpop, a: Any, b: Any, e: ast.AST) -> Any:
+        if isinstance(op, (ast.Is, ast.IsNot)) and isinstance(b, K) and b.v is None:
+            if isinstance(a, K):
+                return K((a.v is None) == isinstance(op, ast.Is))
+            if isinstance(a, (MatchV, Txt, Num, Rnd, IntU, FloatU, Tup, DictV, Fn)):
+                return K(isinstance(op, ast.IsNot))
+        if isinstance(a, K) and isinstance(b, K):
             try:
-                got, stmt = evalr.run(text)
-            except _EvalRaise as ex:
-                got, stmt = f'raises {ex}', None
-            n_eval += 1
-            rec = per_stmt[id(stmt)] if stmt is not None and id(stmt) in per_stmt else per_stmt.setdefault(0, {'stmt': None, 'n': 0, 'bad': []})
-            rec['n'] += 1
-            if got != want or isinstance(got, bool) or not isinstance(got, int):
-                rec['bad'].append((text, got, want))
-        for key, rec in per_stmt.items():
-            st = rec['stmt']
-            stext = pf.nsrc(st) if st is not None else 'no value returned'
-            cons = f'{F_PARSE}::{p.name}::{stext}'
-            if st is not None and rec['n'] == 0:
-                raise AnalysisError(f'{p.name}: `{stext}` is not reached by any evaluated spelling')
-            line = st.lineno if st is not None else p.fn.lineno
-            bad = sorted(rec['bad'], key=lambda b: (len(b[0]), b[0]))
-            ex = '; '.join(f'{t!r} -> {g} (exact value {w} {unit_word})' for t, g, w in bad[:3])
-            if ideal:
-                formula_ok[key] = not bad
-                ctx.check(not bad, 'R4', cons,
-                          f'even with exact real arithmetic in place of float the statement computes the wrong value for {len(bad)} of {rec["n"]} '
-                          f'evaluated spellings, e.g. {ex} (expected ' + ('floor(value * 1000), value / 1000 for the m suffix' if p.resource == 'cpu'
-                                                                          else 'ceil(value * 1000^n or 1024^n)') + ')',
-                          p.m.path, line, detail={'evaluated_spellings': rec['n']}, extra=[list(map(str, b)) for b in bad[:10]])
-            elif not formula_ok.get(key, True):
-                # the float result is wrong because the formula is wrong: already reported under R4
-                ctx.ok('R3', cons, 'not evaluated: the formula itself fails R4', nontrivial=False)
-            elif bad:
-                why = ''
-                if evalr.float_calls:
-                    why = (' - the decimal text goes through binary float(): the product/quotient is rounded before '
-                           + ('int() truncates it' if p.resource == 'cpu' else 'math.ceil() is applied'))
-                ctx.bad('R3', cons, f'{len(bad)} of {rec["n"]} evaluated spellings give the wrong value, e.g. {ex}{why}', p.m.path, line,
-                        extra=[list(map(str, b)) for b in bad[:10]])
+                table = {ast.Eq: lambda: a.v == b.v, ast.NotEq: lambda: a.v != b.v, ast.Lt: lambda: a.v < b.v, ast.LtE: lambda: a.v <= b.v,
+                         ast.Gt: lambda: a.v > b.v, ast.GtE: lambda: a.v >= b.v, ast.Is: lambda: a.v is b.v, ast.IsNot: lambda: a.v is not b.v,
+                         ast.In: lambda: a.v in b.v, ast.NotIn: lambda: a.v not in b.v}
+                if type(op) in table:
+                    return K(table[type(op)]())
+            except TypeError as ex:
+                raise _Raises(f'TypeError: {ex}')
+        if isinstance(op, (ast.In, ast.NotIn)) and isinstance(a, K) and isinstance(b, (DictV, Tup)):
+            if isinstance(b, DictV):
+                inside = a.v in b.items
             else:
-                ctx.ok('R3', cons, {'evaluated_spellings': rec['n'], 'float_free': not evalr.float_calls})
-    return n_eval
+                if not all(isinstance(x, K) for x in b.items):
+                    raise self.fail(e, 'membership')
+                inside = any(x.v == a.v and type(x.v) is type(a.v) for x in b.items)
+            return K(inside == isinstance(op, ast.In))
+        if isinstance(op, (ast.Eq, ast.NotEq)) and isinstance(a, K) != isinstance(b, K) and isinstance(a if isinstance(a, K) else b, K):
+            k, o = (a, b) if isinstance(a, K) else (b, a)
+            if k.v is None and isinstance(o, (MatchV, Txt, Num, Rnd, IntU, FloatU, Tup, DictV)):
+                return K(isinstance(op, ast.NotEq))
+            if isinstance(k.v, str) and isinstance(o, Txt):
+                # a piece of text compared with a literal: decided only by the lengths
+                if o.hi is not None and len(k.v) > o.hi or len(k.v) < o.lo:
+                    return K(isinstance(op, ast.NotEq))
+        if isinstance(a, IntU) and _is_num_k(b) or isinstance(b, IntU) and _is_num_k(a):
+            iv, kv, flip = (a, b.v, False) if isinstance(a, IntU) else (b, a.v, True)
+            lo, hi = iv.lo, iv.hi
+            opn = type(op)
+            if flip:
+                opn = {ast.Lt: ast.Gt, ast.Gt: ast.Lt, ast.LtE: ast.GtE, ast.GtE: ast.LtE}.get(opn, opn)
+            def decided(always: bool, never: bool) -> Optional[Any]:
+                return K(True) if always else (K(False) if never else None)
+            r = None
+            if opn is ast.Lt:
+                r = decided(hi is not None and hi < kv, lo is not None and lo >= kv)
+            elif opn is ast.LtE:
+                r = decided(hi is not None and hi <= kv, lo is not None and lo > kv)
+            elif opn is ast.Gt:
+                r = decided(lo is not None and lo > kv, hi is not None and hi <= kv)
+            elif opn is ast.GtE:
+                r = decided(lo is not None and lo >= kv, hi is not None and hi < kv)
+            elif opn in (ast.Eq, ast.NotEq):
+                out = (hi is not None and hi < kv) or (lo is not None and lo > kv)
+                r = K(opn is ast.NotEq) if out else (K(opn is ast.Eq) if lo == hi == kv else None)
+            if r is not None:
+                return r
+        raise AnalysisError(f'{self.p.name}: the comparison `{pf.nsrc(e)[:70]}` depends on the value of the number or on a quantity the analysis does not track')
+
+    def subscript(self, base: Any, e: ast.Subscript, env: Dict[str, Any], fn: pf.FuncDef) -> Any:
+        if isinstance(e.slice, ast.Slice):
+            if not isinstance(base, (Txt, K)) or e.slice.step is not None:
+                raise self.fail(e, 'slice')
+            lo = self.expr(e.slice.lower, env, fn) if e.slice.lower is not None else K(None)
+            hi = self.expr(e.slice.upper, env, fn) if e.slice.upper is not None else K(None)
+            if not (isinstance(lo, K) and isinstance(hi, K) and all(x.v is None or (isinstance(x.v, int) and not isinstance(x.v, bool)) for x in (lo, hi))):
+                raise self.fail(e, 'slice bounds')
+            if isinstance(base, K):
+                if not isinstance(base.v, str):
+                    raise self.fail(e, 'slice')
+                return K(base.v[lo.v:hi.v])
+            if base.kind != 'digits' and not (base.kind == 'number' and False):
+                raise self.fail(e, 'slice of the matched text')
+            a, b = lo.v, hi.v
+            if (a is None or a >= 0) and (b is None or b >= 0):
+                a0 = a or 0
+                n_hi = None if (b is None and base.hi is None) else max(0, (min(b, base.hi) if b is not None and base.hi is not None else (b if b is not None else base.hi)) - a0)
+                n_lo = max(0, (min(b, base.lo) if b is not None else base.lo) - a0)
+                return Txt('digits', n_lo, n_hi, pf.nsrc(e))
+            return Txt('digits', 0, base.hi, pf.nsrc(e))
+        key = self.expr(e.slice, env, fn)
+        if isinstance(base, MatchV):
+            return self.group(key, e)
+        if not isinstance(key, K):
+            raise self.fail(e, 'subscript')
+        if isinstance(base, DictV):
+            if isinstance(key.v, float) or key.v not in base.items:
+                raise _Raises(f'KeyError({key.v!r})')
+            return base.items[key.v]
+        if isinstance(base, Tup) and isinstance(key.v, int) and not isinstance(key.v, bool):
+            if not -len(base.items) <= key.v < len(base.items):
+                raise _Raises(f'IndexError({key.v})')
+            return base.items[key.v]
+        if isinstance(base, K) and isinstance(base.v, str) and isinstance(key.v, int) and not isinstance(key.v, bool):
+            if not -len(base.v) <= key.v < len(base.v):
+                raise _Raises(f'IndexError({key.v})')
+            return K(base.v[key.v])
+        raise self.fail(e, 'subscript')
+
+    def group(self, key: Any, e: ast.AST) -> Any:
+        if not isinstance(key, K):
+            raise self.fail(e, 'group index')
+        g = self.groupindex.get(key.v, key.v) if isinstance(key.v, str) else key.v
+        if isinstance(g, bool) or not isinstance(g, int):
+            raise self.fail(e, 'group index')
+        if g == 0:
+            return Txt('input', 1, None, pf.nsrc(e))
+        if g == 1:
+            return Txt('number', 1, None, pf.nsrc(e))
+        if g == 2:
+            return K(self.unit)
+        raise self.fail(e, 'capture group other than 1 (number) and 2 (unit)')
+
+    # ---- arithmetic
+    def neg(self, v: Any, e: ast.AST) -> Any:
+        if _is_num_k(v):
+            return K(-v.v, v.dec)
+        if isinstance(v, Num):
+            return Num(-v.c, -v.d, v.rep, v.lossy)
+        if isinstance(v, Rnd):
+            mode = {'floor': 'ceil', 'ceil': 'floor', 'nearest': 'nearest'}[v.mode]
+            return Rnd(mode, -v.c, -v.d, v.k, -v.j, v.lossy)
+        if isinstance(v, IntU):
+            return IntU(None if v.hi is None else -v.hi, None if v.lo is None else -v.lo, f'-({v.what})')
+        if isinstance(v, FloatU):
+            return v
+        if isinstance(v, Alt):
+            return _hull([self.neg(a, e) for a in v.alts])
+        raise self.fail(e, 'negation')
+
+    def arith(self, op: ast.operator, a: Any, b: Any, e: ast.AST) -> Any:
+        if isinstance(a, Alt) or isinstance(b, Alt):
+            return _hull([self.arith(op, x, y, e) for x in (a.alts if isinstance(a, Alt) else [a]) for y in (b.alts if isinstance(b, Alt) else [b])])
+        ka, kb = _is_num_k(a), _is_num_k(b)
+        # constants: folded exactly (Python semantics: int / int is a float)
+        if ka and kb:
+            if a.dec != b.dec and (isinstance(a.v, (float, fractions.Fraction)) and not a.dec or isinstance(b.v, (float, fractions.Fraction)) and not b.dec):
+                raise self.fail(e, 'Decimal mixed with float/Fraction')
+            try:
+                if isinstance(op, ast.Pow):
+                    if not isinstance(b.v, int) or abs(b.v) > 64 or isinstance(a.v, float):
+                        raise self.fail(e, 'exponent')
+                    return K(a.v ** b.v if b.v >= 0 or not isinstance(a.v, int) else float(a.v) ** b.v, a.dec)
+                table = {ast.Add: lambda x, y: x + y, ast.Sub: lambda x, y: x - y, ast.Mult: lambda x, y: x * y, ast.Div: lambda x, y: x / y,
+                         ast.FloorDiv: lambda x, y: x // y, ast.Mod: lambda x, y: x % y}
+                if type(op) not in table:
+                    raise self.fail(e, 'operator')
+                return K(table[type(op)](a.v, b.v), a.dec or b.dec)
+            except ZeroDivisionError:
+                raise _Raises('ZeroDivisionError')
+        if isinstance(a, K) and isinstance(a.v, str) or isinstance(b, K) and isinstance(b.v, str) or isinstance(a, Txt) or isinstance(b, Txt):
+            if isinstance(op, ast.Add) and isinstance(a, K) and isinstance(b, K) and isinstance(a.v, str) and isinstance(b.v, str):
+                return K(a.v + b.v)
+            raise self.fail(e, 'string arithmetic')
+        if isinstance(a, FloatU) or isinstance(b, FloatU):
+            fl = a if isinstance(a, FloatU) else b
+            other = b if fl is a else a
+            if isinstance(other, (FloatU, IntU, Rnd, Num)) or _is_num_k(other):
+                return fl
+            raise self.fail(e)
+        # c*x + d with a constant
+        if isinstance(a, Num) and kb or ka and isinstance(b, Num):
+            n, k, left = (a, b, True) if isinstance(a, Num) else (b, a, False)
+            kv = k.v
+            rep, lossy = n.rep, n.lossy
+            if k.dec and rep == 'fraction':
+                raise _Raises('TypeError: Fraction and Decimal do not mix')
+            if isinstance(kv, float):
+                if rep == 'decimal':
+                    raise _Raises('TypeError: Decimal and float do not mix')
+                rep, lossy = 'float', lossy or f'`{pf.nsrc(e)[:50]}` is computed in binary floating point'
+                kv = fractions.Fraction(kv)
+            elif isinstance(kv, fractions.Fraction) and not k.dec and rep == 'decimal':
+                raise _Raises('TypeError: Decimal and Fraction do not mix')
+            if rep == 'decimal':
+                lossy = lossy or _DEC_MSG
+            if isinstance(op, ast.Add):
+                return Num(n.c, n.d + kv, rep, lossy)
+            if isinstance(op, ast.Sub):
+                return Num(n.c, n.d - kv, rep, lossy) if left else Num(-n.c, kv - n.d, rep, lossy)
+            if isinstance(op, ast.Mult):
+                return Num(n.c * kv, n.d * kv, rep, lossy)
+            if isinstance(op, ast.Div) and left:
+                if kv == 0:
+                    raise _Raises('ZeroDivisionError')
+                return Num(n.c / kv, n.d / kv, rep, lossy)
+            if isinstance(op, ast.FloorDiv) and left:
+                if kv == 0:
+                    raise _Raises('ZeroDivisionError')
+                return Rnd('floor', n.c / kv, n.d / kv, 1, 0, lossy)
+            if isinstance(op, ast.Pow) and left and kv == 1:
+                return n
+            raise self.fail(e, 'non-linear use of the number')
+        if isinstance(a, Num) and isinstance(b, Num) and isinstance(op, (ast.Add, ast.Sub)):
+            if a.rep != b.rep and 'float' not in (a.rep, b.rep):
+                raise _Raises('TypeError: Fraction and Decimal do not mix')
+            s = 1 if isinstance(op, ast.Add) else -1
+            rep = 'float' if 'float' in (a.rep, b.rep) else a.rep
+            return Num(a.c + s * b.c, a.d + s * b.d, rep, a.lossy or b.lossy or (_DEC_MSG if rep == 'decimal' else None))
+        # k * mode(c*x + d) + j with an integer constant
+        if isinstance(a, Rnd) and kb or ka and isinstance(b, Rnd):
+            r, k, left = (a, b, True) if isinstance(a, Rnd) else (b, a, False)
+            if isinstance(k.v, float) or isinstance(op, ast.Div):
+                return FloatU(f'`{pf.nsrc(e)[:60]}` is computed in binary floating point')
+            if isinstance(k.v, int):
+                if isinstance(op, ast.Add):
+                    return Rnd(r.mode, r.c, r.d, r.k, r.j + k.v, r.lossy)
+                if isinstance(op, ast.Sub):
+                    return Rnd(r.mode, r.c, r.d, r.k, r.j - k.v, r.lossy) if left else self.arith(ast.Add(), self.neg(r, e), k, e)
+                if isinstance(op, ast.Mult):
+                    if k.v == 0:
+                        return K(0)
+                    if k.v < 0:
+                        nr = self.neg(r, e)
+                        return Rnd(nr.mode, nr.c, nr.d, nr.k * -k.v, nr.j * -k.v, nr.lossy)
+                    return Rnd(r.mode, r.c, r.d, r.k * k.v, r.j * k.v, r.lossy)
+                if isinstance(op, ast.FloorDiv) and left and k.v == 1:
+                    return r
+            raise self.fail(e, 'arithmetic on a rounded value')
+        # integers known by interval
+        def as_iv(v: Any) -> Optional[Tuple[Optional[int], Optional[int], str]]:
+            if isinstance(v, IntU):
+                return v.lo, v.hi, v.what
+            if isinstance(v, K) and isinstance(v.v, int) and not isinstance(v.v, bool):
+                return v.v, v.v, repr(v.v)
+            return None
+        ia, ib = as_iv(a), as_iv(b)
+        if ia is not None and ib is not None:
+            what = f'{ia[2]} {type(op).__name__} {ib[2]}'
+            if isinstance(op, ast.Div):
+                return FloatU(f'`{pf.nsrc(e)[:60]}` is a true division of integers, i.e. a binary float')
+            if isinstance(op, ast.Add):
+                return IntU(None if None in (ia[0], ib[0]) else ia[0] + ib[0], None if None in (ia[1], ib[1]) else ia[1] + ib[1], pf.nsrc(e)[:40])
+            if isinstance(op, ast.Sub):
+                return IntU(None if None in (ia[0], ib[1]) else ia[0] - ib[1], None if None in (ia[1], ib[0]) else ia[1] - ib[0], pf.nsrc(e)[:40])
+            if isinstance(op, ast.Mult):
+                if ia[0] is not None and ia[0] >= 0 and ib[0] is not None and ib[0] >= 0:
+                    return IntU(ia[0] * ib[0], None if None in (ia[1], ib[1]) else ia[1] * ib[1], pf.nsrc(e)[:40])
+                return IntU(None, None, pf.nsrc(e)[:40])
+            if isinstance(op, ast.Pow) and ia[0] is not None and ia[0] == ia[1] and ia[0] >= 2:
+                if ib[0] is None or ib[0] < 0:
+                    lim = 'is unbounded' if ib[0] is None else f'can be {ib[0]}'
+                    return FloatU(f'`{pf.nsrc(e)[:60]}` has a negative exponent for accepted strings (the exponent {ib[2]} {lim} below 0), and int ** negative int is a binary float')
+                return IntU(ia[0] ** min(ib[0], 64), None if ib[1] is None or ib[1] > 64 else ia[0] ** ib[1], pf.nsrc(e)[:40])
+            if isinstance(op, (ast.FloorDiv, ast.Mod)):
+                return IntU(None, None, what)
+            raise self.fail(e, 'operator')
+        if isinstance(a, (IntU, Rnd)) and isinstance(b, (IntU, Rnd)) and isinstance(op, (ast.Add, ast.Sub, ast.Mult)):
+            return IntU(None, None, pf.nsrc(e)[:40])
+        raise self.fail(e, 'arithmetic')
+
+    # ---- calls
+    def rounding(self, mode: str, v: Any, e: ast.AST) -> Any:
+        """int / math.trunc (mode 'trunc'), math.floor, math.ceil, round of a value."""
+        if isinstance(v, Alt):
+            return _hull([self.rounding(mode, a, e) for a in v.alts])
+        if _is_num_k(v):
+            if v.dec and mode == 'nearest':
+                raise self.fail(e, 'round() of a Decimal constant')
+            f = {'trunc': math.trunc, 'floor': math.floor, 'ceil': math.ceil, 'nearest': round}[mode]
+            return K(f(v.v))
+        if isinstance(v, (Rnd, IntU)):
+            return v
+        if isinstance(v, FloatU):
+            return IntU(None, None, f'{mode} of a binary float')
+        if isinstance(v, Num):
+            if mode == 'trunc':
+                if v.c >= 0 and v.d >= 0:
+                    mode = 'floor'
+                elif v.c <= 0 and v.d <= 0:
+                    mode = 'ceil'
+                else:
+                    raise self.fail(e, 'truncation of a value of unknown sign')
+            return Rnd(mode, v.c, v.d, 1, 0, v.lossy)
+        raise self.fail(e, 'rounding')
+
+    def call(self, e: ast.Call, env: Dict[str, Any], fn: pf.FuncDef) -> Any:
+        if e is self.p.call:
+            return MatchV() if self.matched else K(None)
+        if e.keywords and not (isinstance(e.func, ast.Name) and self.m.has_func(e.func.id)):
+            raise self.fail(e, 'keyword arguments')
+        if any(isinstance(a, ast.Starred) for a in e.args):
+            raise self.fail(e, 'star arguments')
+        f = e.func
+        # methods
+        if isinstance(f, ast.Attribute) and not (pf.dotted(f) and pf.dotted(f).split('.')[0] not in env and self.imports.get(pf.dotted(f).split('.')[0])):
+            recv = self.expr(f.value, env, fn)
+            args = [self.expr(a, env, fn) for a in e.args]
+            return self.method(recv, f.attr, args, e)
+        callee = self.expr(f, env, fn)
+        if not isinstance(callee, Fn):
+            raise self.fail(e, 'call')
+        if callee.name.startswith('user:'):
+            return self.user_call(callee.name[5:], e, env, fn)
+        args = [self.expr(a, env, fn) for a in e.args]
+        return self.builtin(callee.name, args, e)
+
+    def user_call(self, name: str, e: ast.Call, env: Dict[str, Any], fn: pf.FuncDef) -> Any:
+        h = self.m.func(name)
+        if self.depth >= 3 or h.decorator_list or isinstance(h, ast.AsyncFunctionDef) or h.args.vararg or h.args.kwarg or h.args.posonlyargs \
+                or any(isinstance(x, (ast.Yield, ast.YieldFrom)) for x in pf.walk_shallow(h)):
+            raise self.fail(e, 'call of a helper of this shape')
+        if any(sp.regex_call(self.m, h, c) is not None for c in pf.calls_in(h)):
+            raise self.fail(e, 'helper that matches a regex itself')
+        params = [a.arg for a in h.args.args]
+        kwonly = [a.arg for a in h.args.kwonlyargs]
+        if len(e.args) > len(params):
+            raise _Raises('TypeError: too many arguments')
+        new: Dict[str, Any] = {}
+        for p_, a in zip(params, e.args):
+            new[p_] = self.expr(a, env, fn)
+        for k in e.keywords:
+            if k.arg is None or k.arg in new or k.arg not in params + kwonly:
+                raise self.fail(e, 'keyword arguments')
+            new[k.arg] = self.expr(k.value, env, fn)
+        defaults = dict(zip(params[len(params) - len(h.args.defaults):], h.args.defaults))
+        defaults.update({p_: d for p_, d in zip(kwonly, h.args.kw_defaults) if d is not None})
+        for p_ in params + kwonly:
+            if p_ not in new:
+                if p_ not in defaults:
+                    raise _Raises(f'TypeError: missing argument {p_}')
+                new[p_] = self.expr(defaults[p_], {}, h)
+        self.depth += 1
+        try:
+            r = self.block(h.body, new, h)
+        finally:
+            self.depth -= 1
+        return r[0] if r is not None else K(None)
+
+    def builtin(self, name: str, args: list, e: ast.Call) -> Any:
+        if any(isinstance(a, Alt) for a in args) and len(args) == 1:
+            return _hull([self.builtin(name, [a], e) for a in args[0].alts])
+        a0 = args[0] if args else None
+        if name in ('int', 'math.trunc') and len(args) == 1:
+            if isinstance(a0, K) and isinstance(a0.v, str):
+                try:
+                    return K(int(a0.v))
+                except ValueError as ex:
+                    raise _Raises(f'ValueError: {ex}')
+            if isinstance(a0, Txt):
+                if a0.kind == 'digits':
+                    if a0.lo == 0:
+                        raise _Raises(f"ValueError: int('') - `{a0.src}` is empty for some accepted strings")
+                    return IntU(0, None, f'int({a0.src})')
+                raise _Raises(f"ValueError: int() of `{a0.src}`, which contains '.' / a sign for accepted strings such as '1.5'")
+            return self.rounding('trunc', a0, e)
+        if name in ('math.floor', 'math.ceil') and len(args) == 1:
+            return self.rounding(name[5:], a0, e)
+        if name == 'round' and len(args) == 1:
+            return self.rounding('nearest', a0, e)
+        if name == 'float' and len(args) == 1:
+            if isinstance(a0, Txt) and a0.kind == 'number':
+                return Num(1, 0, 'float', _FLOAT_MSG)
+            if isinstance(a0, Num):
+                return Num(a0.c, a0.d, 'float', a0.lossy or f'`{pf.nsrc(e)[:50]}` converts the exact value to a binary float')
+            if _is_num_k(a0) or isinstance(a0, K) and isinstance(a0.v, str):
+                try:
+                    return K(float(a0.v))
+                except (ValueError, OverflowError) as ex:
+                    raise _Raises(f'{type(ex).__name__}: {ex}')
+            if isinstance(a0, (Rnd, IntU, FloatU)):
+                return FloatU(f'`{pf.nsrc(e)[:50]}` is a binary float')
+        if name == 'fractions.Fraction':
+            if len(args) == 1:
+                if isinstance(a0, Txt) and a0.kind == 'number':
+                    return Num(1, 0, 'fraction')
+                if isinstance(a0, Num):
+                    return Num(a0.c, a0.d, 'fraction', a0.lossy)
+                if isinstance(a0, K) and isinstance(a0.v, (int, str, float, fractions.Fraction)) and not isinstance(a0.v, bool):
+                    try:
+                        return K(fractions.Fraction(a0.v))
+                    except (ValueError, ZeroDivisionError) as ex:
+                        raise _Raises(f'{type(ex).__name__}: {ex}')
+                if isinstance(a0, Rnd):
+                    return a0
+            if len(args) == 2 and all(isinstance(a, K) and isinstance(a.v, int) and not isinstance(a.v, bool) for a in args):
+                if args[1].v == 0:
+                    raise _Raises('ZeroDivisionError')
+                return K(fractions.Fraction(args[0].v, args[1].v))
+        if name == 'decimal.Decimal' and len(args) == 1:
+            if isinstance(a0, Txt) and a0.kind == 'number':
+                return Num(1, 0, 'decimal')
+            if isinstance(a0, Num) and a0.rep in ('float', 'decimal'):
+                return Num(a0.c, a0.d, 'decimal', a0.lossy)
+            if isinstance(a0, K) and isinstance(a0.v, (int, str)) and not isinstance(a0.v, bool):
+                try:
+                    return K(fractions.Fraction(decimal.Decimal(a0.v)), dec=True)
+                except (decimal.InvalidOperation, ValueError) as ex:
+                    raise _Raises(f'{type(ex).__name__}: {ex}')
+        if name == 'len' and len(args) == 1:
+            if isinstance(a0, Txt):
+                return IntU(a0.lo, a0.hi, f'len({a0.src})') if a0.lo != a0.hi else K(a0.lo)
+            if isinstance(a0, K) and isinstance(a0.v, str):
+                return K(len(a0.v))
+            if isinstance(a0, Tup):
+                return K(len(a0.items))
+            if isinstance(a0, DictV):
+                return K(len(a0.items))
+        if name == 'bool' and len(args) == 1:
+            t = self.truth(a0)
+            if t is not None:
+                return K(t)
+        if name == 'str' and len(args) == 1 and isinstance(a0, K) and isinstance(a0.v, (int, str)) and not isinstance(a0.v, bool):
+            return K(str(a0.v))
+        if name == 'abs' and len(args) == 1:
+            if _is_num_k(a0):
+                return K(abs(a0.v), a0.dec)
+            if isinstance(a0, Num) and a0.c >= 0 and a0.d >= 0:
+                return a0
+        if name in ('min', 'max') and len(args) >= 2 and all(_is_num_k(a) for a in args):
+            return K((min if name == 'min' else max)(a.v for a in args))
+        raise self.fail(e, 'call')
+
+    def method(self, recv: Any, attr: str, args: list, e: ast.Call) -> Any:
+        if isinstance(recv, MatchV):
+            if attr == 'group':
+                if not args:
+                    return self.group(K(0), e)
+                gs = [self.group(a, e) for a in args]
+                return gs[0] if len(gs) == 1 else Tup(gs)
+            if attr == 'groups' and len(args) <= 1:
+                u = K(self.unit)
+                if self.unit is None and args:
+                    u = args[0]
+                n_groups = re.compile(self.p.rd.pattern, self.p.rd.flags).groups
+                if n_groups != 2:
+                    raise self.fail(e, f'groups() of a pattern with {n_groups} groups')
+                return Tup([Txt('number', 1, None, 'group 1'), u])
+            raise self.fail(e, 'match method')
+        if isinstance(recv, Txt):
+            if attr in ('partition', 'rpartition') and len(args) == 1 and isinstance(args[0], K) and args[0].v == '.' and recv.kind == 'number':
+                return Tup([Txt('digits', 0, None, f'{recv.src}.{attr}(".")[0]'), _hull([K('.'), K('')]), Txt('digits', 0, None, f'{recv.src}.{attr}(".")[2]')])
+            raise self.fail(e, 'string method on the matched text')
+        if isinstance(recv, K) and isinstance(recv.v, str) and attr in ('lower', 'upper', 'strip', 'lstrip', 'rstrip', 'casefold', 'title', 'capitalize', 'rstrip', 'removesuffix', 'removeprefix',
+                                                                    'startswith', 'endswith', 'replace') and all(isinstance(a, K) and isinstance(a.v, str) for a in args):
+            try:
+                return K(getattr(recv.v, attr)(*[a.v for a in args]))
+            except TypeError as ex:
+                raise _Raises(f'TypeError: {ex}')
+        if isinstance(recv, K) and recv.v is None:
+            raise _Raises(f"AttributeError: 'NoneType' object has no attribute {attr!r}")
+        if isinstance(recv, DictV) and attr == 'get' and 1 <= len(args) <= 2 and isinstance(args[0], K) and not isinstance(args[0].v, float):
+            return recv.items.get(args[0].v, args[1] if len(args) == 2 else K(None))
+        if isinstance(recv, Num) and attr in ('__floor__', '__ceil__', '__trunc__') and not args:
+            return self.rounding(attr.strip('_'), recv, e)
+        if isinstance(recv, Num) and attr == 'limit_denominator':
+            raise self.fail(e, 'limit_denominator (an approximation)')
+        raise self.fail(e, 'method call')
+
+
+def _spec(resource: str, unit: Optional[str]) -> Tuple[str, fractions.Fraction]:
+    if resource == 'cpu':
+        return 'floor', fractions.Fraction(1000) * (SPEC_CPU_UNITS[unit] if unit is not None else 1)
+    return 'ceil', fractions.Fraction(SPEC_UNITS[unit] if unit is not None else 1)
+
+
+def _nf_value(mode: str, c, d, k: int, j: int, x: fractions.Fraction) -> int:
+    y = c * x + d
+    r = {'floor': math.floor, 'ceil': math.ceil, 'nearest': round}[mode](y)
+    return k * r + j
+
+
+def _nf_text(r: Rnd) -> str:
+    def q(v) -> str:
+        return str(v.numerator) if v.denominator == 1 else f'{v.numerator}/{v.denominator}'
+    inner = ('value' if r.c == 1 else f'{q(r.c)}*value') if r.c != 0 else ''
+    if r.d != 0 or not inner:
+        inner = (inner + (' + ' if r.d >= 0 else ' - ') + q(abs(r.d))) if inner else q(r.d)
+    s = f'{"round" if r.mode == "nearest" else r.mode}({inner})'
+    if r.k != 1:
+        s = f'{r.k}*{s}'
+    if r.j:
+        s += f' {"+" if r.j > 0 else "-"} {abs(r.j)}'
+    return s
+
+
+_WITNESS_NUMBERS = ('1', '0.5', '0.1', '1.5', '0.25', '0.001', '0.0005', '0.0001', '1.0005', '0.3', '3', '0.0000000001', '1.0000000001', '0.00000000000000000001')
+
+
+def _witness(r: Rnd, mode: str, c: fractions.Fraction, unit: Optional[str], unit_word: str) -> str:
+    """A concrete spelling on which the two (already different) normal forms differ - illustration only."""
+    for x in _WITNESS_NUMBERS:
+        q = fractions.Fraction(x)
+        got, want = _nf_value(r.mode, r.c, r.d, r.k, r.j, q), _nf_value(mode, c, 0, 1, 0, q)
+        if got != want:
+            return f", e.g. '{x}{unit or ''}' -> {got} (exact value {want} {unit_word})"
+    return ''
+
+
+def _check_arithmetic(ctx: Ctx, p: ParseFn, units: List[str]) -> int:
+    """R4 (formula) and R3 (exactness) for every value-returning statement of one parse function, by abstract execution per unit case."""
+    spec_units = SPEC_CPU_UNITS if p.resource == 'cpu' else SPEC_UNITS
+    cases: List[Optional[str]] = [None] + [u for u in units if u in spec_units]  # units outside the statement are R2's business
+    unit_word = 'mCPU' if p.resource == 'cpu' else 'bytes'
+    rets = [n for n in pf.walk_shallow(p.fn) if isinstance(n, ast.Return) and n.value is not None and not (isinstance(n.value, ast.Constant) and n.value.value is None)]
+    per: Dict[int, dict] = {id(r): {'stmt': r, 'n': 0, 'r4': [], 'r3': [], 'open': [], 'nf': set()} for r in rets}
+    declined: List[str] = []
+    for u in cases:
+        mode, c = _spec(p.resource, u)
+        label = f"unit {u!r}" if u is not None else 'no unit'
+        try:
+            val, st = SymExec(p, u).run()
+        except _Raises as ex:
+            rec = per.setdefault(0, {'stmt': None, 'n': 0, 'r4': [], 'r3': [], 'open': [], 'nf': set()})
+            rec['n'] += 1
+            rec['r4'].append(f"raises {ex} for accepted strings with {label} (e.g. '1{u or ''}')")
+            continue
+        except AnalysisError as ex:
+            declined.append(f'{label}: {ex}')
+            continue
+        rec = per[id(st)] if st is not None and id(st) in per else per.setdefault(0, {'stmt': None, 'n': 0, 'r4': [], 'r3': [], 'open': [], 'nf': set()})
+        rec['n'] += 1
+        want = f'{mode}({"value" if c == 1 else str(c) + "*value"})'
+        for v in (val.alts if isinstance(val, Alt) else [val]):
+            if isinstance(v, Rnd):
+                rec['nf'].add(_nf_text(v))
+                if not (v.k == 1 and v.j == 0 and v.mode == mode and v.c == c and v.d == 0):
+                    what = 'rounds in the wrong direction' if (v.k, v.j, v.c, v.d) == (1, 0, c, 0) else 'computes the wrong quantity'
+                    rec['r4'].append(f'with {label} the statement yields {_nf_text(v)}, the value denoted is {want} {unit_word}: it {what}{_witness(v, mode, c, u, unit_word)}')
+                if v.lossy:
+                    digits = "'0." + '9' * 30 + (u or '') + "'" if mode == 'floor' else "'1." + '0' * 30 + '1' + (u or '') + "'"
+                    rec['r3'].append(f'with {label}: {v.lossy}, before {v.mode}() is applied - the result is wrong for spellings with many digits such as {digits}'
+                                     + (" (and for short ones such as '1.001' whenever the binary product lands on the other side of an integer)" if 'float' in v.lossy else ''))
+            elif isinstance(v, FloatU):
+                rec['r3'].append(f'with {label} the statement returns a binary float, not the exact integer count: {v.why}')
+            elif isinstance(v, Num):
+                kind = {'fraction': 'Fraction', 'decimal': 'Decimal', 'float': 'float'}[v.rep]
+                rec['r4'].append(f'with {label} the statement returns the unrounded {kind} {"value" if v.c == 1 else str(v.c) + "*value"}{"" if v.d == 0 else " + " + str(v.d)}, '
+                                 f"not an integer number of {unit_word} (the value denoted is {want}), e.g. for '0.0005{u or ''}'")
+            elif isinstance(v, K):
+                rec['r4'].append(f"with {label} the statement returns the constant {v.v!r} for every number (the value denoted is {want} {unit_word})")
+            elif isinstance(v, IntU):
+                rec['open'].append(f'with {label} the result is an integer the analysis only knows as `{v.what}`')
+            else:
+                rec['open'].append(f'with {label} the result is not a number the analysis tracks')
+    for key, rec in per.items():
+        st = rec['stmt']
+        stext = pf.nsrc(st) if st is not None else 'no value returned'
+        cons = f'{F_PARSE}::{p.name}::{stext}'
+        if st is not None and rec['n'] == 0:
+            if declined:
+                continue
+            raise AnalysisError(f'{p.name}: `{stext}` is not reached by any unit case')
+        line = st.lineno if st is not None else p.fn.lineno
+        if rec['r4']:
+            ctx.bad('R4', cons, rec['r4'][0] + (f' (+{len(rec["r4"]) - 1} more unit case(s))' if len(rec['r4']) > 1 else ''), p.m.path, line, extra=rec['r4'][:12])
+        elif rec['open'] or (rec['r3'] and not rec['nf']):
+            ctx.ok('R4', cons, 'formula not decided for this statement', nontrivial=False)
+        else:
+            ctx.ok('R4', cons, {'unit_cases': rec['n'], 'normal_forms': sorted(rec['nf'])})
+        if rec['r3']:
+            ctx.bad('R3', cons, rec['r3'][0] + (f' (+{len(rec["r3"]) - 1} more unit case(s))' if len(rec['r3']) > 1 else ''), p.m.path, line, extra=rec['r3'][:12])
+        elif rec['r4'] or rec['open']:
+            ctx.ok('R3', cons, 'not evaluated: the formula itself fails R4 / is not decided', nontrivial=False)
+        else:
+            ctx.ok('R3', cons, {'unit_cases': rec['n'], 'exact': 'no float / context-rounded Decimal step between the text and the rounding'})
+        if rec['open'] and not rec['r4'] and not rec['r3']:
+            declined.append(f'`{stext}`: {rec["open"][0]}')
+    if declined:
+        raise AnalysisError(f'{p.name}: arithmetic not decided: {declined[0]}' + (f' (+{len(declined) - 1} more)' if len(declined) > 1 else ''))
+    return len(cases)
 
 
 # --------------------------------------------------------------------------------------
@@ -1260,18 +1855,20 @@ def _fold_int(m: pf.Module, e: ast.AST) -> int:
 
 def run(ctx: Ctx) -> None:
     ctx.explanation = ('Regex languages (with the matching mode used at each site) are compared as DFAs over a partition of all Unicode code '
-                       'points; the unit table is constant-folded; the parse arithmetic is interpreted by our own evaluator on a family of '
-                       'accepted spellings and compared with exact rational arithmetic. No repository code is run.')
+                       'points; the unit table is constant-folded; the parse arithmetic is executed abstractly per unit case with the number as a symbol and the '
+                       'resulting normal forms are compared with floor(1000*value) / ceil(factor*value). No repository code is run, no sample inputs are evaluated.')
     ctx.rule('R1', 'client = server: validator language == parse-function language per resource (mode-aware); None iff no match; front-end '
                    'parse sites and defaults are covered; every other use of the patterns accepts the same language; job_validator is applied to every job '
                    'and the deprecated pvc_size key is accepted for exactly the client storage strings', 19)
     ctx.rule('R2', 'L(regex) == documented grammar [+]?(D+|D*.D+)unit?B? ; group 1 == unsigned decimal; group 2 == unit set == keys of '
                    'conv_factor with values 1000^n/1024^n', 12)
-    ctx.rule('R3', 'each value-returning statement of the parse functions yields floor(value*1000) mCPU / ceil(value*factor) bytes exactly '
-                   '(own evaluator with the interpreter\'s float arithmetic vs rational arithmetic on a family of accepted spellings)', 5)
-    ctx.rule('R4', 'formula: the same statements evaluated with exact real arithmetic in place of float give floor(value*1000) (value/1000 for '
-                   'the m suffix) / ceil(value*1000^n|1024^n) - independent of rounding', 5)
-    ctx.assume('Python float is IEEE-754 binary64 with round-to-nearest-even (the arithmetic of the running interpreter)')
+    ctx.rule('R3', 'exactness: on no unit case does the number reach its rounding through a lossy step - float() of the text, a float operand, '
+                   'context-rounded Decimal arithmetic, int ** negative int, true division of integers (taint over the abstract execution; every '
+                   'value-returning statement is an instance)', 3)
+    ctx.rule('R4', 'formula: for every unit case the normal form k*mode(c*value+d)+j that each value-returning statement yields is exactly '
+                   'floor(1000*value) mCPU (floor(value) with the m suffix) / ceil(1000^n|1024^n * value) bytes - abstract execution with helpers inlined, '
+                   'case split over the finite unit set', 3)
+    ctx.assume('Python float is IEEE-754 binary64; decimal arithmetic rounds to the context precision; Fraction arithmetic and Decimal(text) / Fraction(text) construction are exact')
     ctx.assume('the strings reach the validators as str; the front end resolves named memory types before calling parse_memory_in_bytes')
     mp = pf.load(F_PARSE)
     mv = pf.load(F_VALIDATE)
@@ -1283,8 +1880,8 @@ def run(ctx: Ctx) -> None:
     units_by_res: Dict[str, List[str]] = {}
     for res, p in parse.items():
         base = f'{F_PARSE}::{RESOURCES[res][1]}'
-        obj_rd = sp.resolve_regex(mp, None, ast.Name(id=RESOURCES[res][1], ctx=ast.Load()))
-        ctx.need(obj_rd.node is p.rd.node, f'{p.name} does not match with {RESOURCES[res][1]} (uses {p.rd.where})')
+        obj_rd = sp.resolve_regex(p.m, None, ast.Name(id=RESOURCES[res][1], ctx=ast.Load()))
+        # (the checks below are made on the regex the function really matches with - p.rd -, whatever object that is)
         spec = spec_language(res)
         cmp = R.compare(p.full, spec)
         msg = ''
@@ -1360,6 +1957,12 @@ def run(ctx: Ctx) -> None:
 
     # ---------------- R3
     total = 0
+    undecided: List[str] = []
     for res, p in parse.items():
-        total += _check_exactness(ctx, p, units_by_res[res])
-    ctx.unit('arithmetic_evaluations', total)
+        try:
+            total += _check_arithmetic(ctx, p, units_by_res[res])
+        except AnalysisError as e:  # one function of an unrecognised shape must not hide what the others establish
+            undecided.append(str(e))
+    ctx.unit('unit_cases_executed_symbolically', total)
+    if undecided:
+        raise AnalysisError(undecided[0] + (f' (+{len(undecided) - 1} more)' if len(undecided) > 1 else ''))
